@@ -335,14 +335,14 @@ class Agent(dbus.service.Object):
         try:
             ctr = self._fwd_queue.pop(0)
 
-            for blk in ctr.block_type(PreviousNodeBlock):
+            for blk in list(ctr.block_type(PreviousNodeBlock)):
                 ctr.remove_block(blk)
             ctr.add_block(CanonicalBlock() / PreviousNodeBlock(node=self._config.node_id))
 
             for blk in ctr.block_type(HopCountBlock):
                 blk.payload.count += 1
 
-            for blk in ctr.block_type(BundleAgeBlock):
+            for blk in list(ctr.block_type(BundleAgeBlock)):
                 ctr.remove_block(blk)
             create_dtntime = ctr.bundle.primary.create_ts.getfieldval('dtntime')
             if create_dtntime != 0:
